@@ -51,6 +51,7 @@ def showVec (v : Vec) : String := "[" ++ " ".intercalate (v.map ratStr) ++ "]"
 structure Acc where
   v : Verdict := {}
   undecided : Nat := 0
+  within : Nat := 0
   illcond : Bool := false
 
 def Acc.render (a : Acc) : String :=
@@ -59,7 +60,8 @@ def Acc.render (a : Acc) : String :=
   | [] =>
     match a.v.diffs with
       | d :: _ => if a.illcond then "skip ill_conditioned" else "diff " ++ d
-      | [] => if a.undecided > 0 then "skip undecided_certificate" else a.v.render
+      | [] => if a.within > 0 then "skip within_tolerance"
+              else if a.undecided > 0 then "skip undecided_certificate" else a.v.render
 
 def checkRemoved (comp : String) (S : Nat) (eps : Rat) (arr : List Vec) (e : Nat) (certs : List Cert) (a : Acc) : Acc :=
   let kept := arr.take e
@@ -226,26 +228,22 @@ def prune : P String := do
     | none => a
   let a := { a with v := a.v.failIf (!(isPermB xs arr) || e > n) "Pruner not_a_permutation" }
   let a := checkRemoved "Pruner" S eps arr e certs a
-  -- "contains no vector that is nowhere needed": every kept vector must be STRICTLY above all other kept vectors somewhere
-  -- (by more than 1e-9 relative to the data, verified exactly); a verified Farkas cover by the others (within 1e-12
-  -- relative: nowhere needed) is a failing input; neither certificate = undecided
+  -- "contains no vector that is nowhere needed (up to the documented tolerance)", per kept vector `k`:
+  --   ok    : some belief where `k` is above all other kept vectors by more than 1e-9·(1+M), verified exactly;
+  --   fail  : a verified Farkas cover by the others AND (an exact tie with the envelope at a probed belief / recorded witness
+  --           point, or uniform slack > equalToleranceSmall·(1+M) on every coordinate);
+  --   skip within_tolerance : covered, but a near-tie inside the documented tolerance (e.g. a witness accepted on lp_solve noise);
+  --   otherwise undecided.
   let kept := arr.take e
+  let extra := (calls.filterMap (fun c => c.w.bind normalize)) ++ (certs ++ need).filterMap (fun c => c.b.bind normalize)
   let a := (List.range e).foldl (fun (a : Acc) i =>
     let k := kept.getD i []
     let others := kept.eraseIdx i
     if others.isEmpty then a else
-    match neededClause S (tiny M) (tiny M / 1000) others k (need.find? (fun c => c.idx == i)) with
+    match neededClause S (tiny M) (tiny M / 1000) (Gen.equalToleranceSmall * (1 + M)) extra others k (need.find? (fun c => c.idx == i)) with
     | .ok => a
-    | .bad =>
-      -- attribution: did `k` enter through a witness-LP answer that is not strict in exact arithmetic (though within the LP
-      -- wrapper's documented precision, otherwise `witness_below_a_best_vector` above has fired)? Then the loop did what its
-      -- oracle told it and the clause is charged to WitnessLP; else (corner step, or a strict witness) to Pruner itself.
-      let viaLP := calls.any (fun c => match c.w.bind normalize with
-        | some w => !(c.best.contains k) && decide (dot w c.v ≤ dot w k + tiny M) &&
-                    c.best.any (fun g => decide (dot w c.v ≤ dot w g))
-        | none => false)
-      if viaLP then { a with v := a.v.failIf true s!"WitnessLP nonstrict_witness_within_lp_precision idx={i} {showVec k}" }
-      else { a with v := a.v.failIf true s!"Pruner unneeded_vector_kept idx={i} {showVec k}" }
+    | .bad => { a with v := a.v.failIf true s!"Pruner unneeded_vector_kept idx={i} {showVec k}" }
+    | .within => { a with within := a.within + 1 }
     | .undecided => { a with undecided := a.undecided + 1 }) a
   return a.render
 
